@@ -3,8 +3,8 @@
 # Confirms a seeded change in a scratch worktree of /repo HEAD: (1) applies, (2) full suite passes with it,
 # (3) demo fails with it, (4) demo passes without it.  On success copies it to /verif/seeded/<Cxx>-<mN>/.
 P=$1; M=$2
-SRC=/tmp/seed-out/$P/$M
-WT=/tmp/confirm/$P-$M
+SRC=${SEEDSRC:-/tmp/seed-out}/$P/$M
+WT=/tmp/confirm/$P-${SEEDTAG}$M
 mkdir -p /tmp/confirm
 git -C /repo worktree remove --force $WT 2>/dev/null
 git -C /repo worktree add -q $WT HEAD || exit 9
@@ -22,7 +22,7 @@ git apply -R $SRC/patch.diff
 without=$(go test -mod=mod -vet=off -count=1 $run ./$dir/ 2>&1); worc=$?
 if [ $wrc -ne 0 ] && [ $worc -eq 0 ]; then
   res "OK (suite passes with change; demo fails with, passes without)"
-  D=/verif/seeded/$P-$M; mkdir -p $D; cp $SRC/patch.diff $SRC/*_test.go $D/ 
+  D=/verif/seeded/$P-${SEEDTAG}$M; mkdir -p $D; cp $SRC/patch.diff $SRC/*_test.go $D/ 
   python3 - <<PY
 import json
 m=json.load(open('$SRC/meta.json'))
